@@ -244,8 +244,14 @@ func genFlowsCase() *rapid.Generator[tcase] {
 		f.Twin = f.Cooldown == 0 && rapid.IntRange(0, 2).Draw(t, "twin") == 0
 		c := tcase{Flows: f, Seqs: genSeqs(t)}
 		c.Steps = genSteps(t, len(c.Seqs), f.Attempts, statuses, f.inCond, true, nil)
+		// a third of the histories are slow: the provider takes its time, so seconds to minutes pass between the
+		// responses of a sequence (the clock moves only while no response waits in a cool-down)
+		slow := rapid.IntRange(0, 2).Draw(t, "slow") == 0
 		for i := range c.Steps {
 			c.Steps[i].ReqLeg = rapid.IntRange(0, 3).Draw(t, "request-leg") != 0
+			if slow {
+				c.Steps[i].Adv = rapid.SampledFrom([]int{0, 1, 8, 8, 25, 61, 200}).Draw(t, "seconds-before")
+			}
 		}
 		return c
 	})
@@ -673,6 +679,10 @@ func runFlows(r *ev.Recorder, rec *engine.Recorder, c tcase) (bool, string, erro
 		id := fmt.Sprintf("t%d", i)
 		if st.IDEq {
 			id = seq
+		}
+		if st.Adv > 0 && len(parked) == 0 {
+			gclk.Advance(time.Duration(st.Adv) * time.Second)
+			r.Class("time passes between the responses of the history")
 		}
 		e := event{Seq: seq, IDEq: st.IDEq, NewCall: st.NewCall, InCond: c.Flows.inCond(st.Status)}
 		if e.InCond {
